@@ -185,6 +185,15 @@ fn check_workspace(src: &Sources, phase: &str, with_base: bool, use_conf: bool, 
         std::fs::write(dir.path.join("oal.toml"), conf).unwrap();
         run_cli_conf(&dir.path, "oal.toml")
     } else {
+        // an options-only run is not influenced by an oal.toml that happens to lie in the working directory
+        // (the language server's convention), be it well-formed or not
+        let ambient = match hash64(&src.files) % 3 {
+            0 => "this is = = not a configuration file\n",
+            1 => "[api]\nmain = \"not-the-main.oal\"\ntarget = \"conf-out.yaml\"\nbase = \"not-the-base.yaml\"\n",
+            _ => "title = \"no api table\"\n",
+        };
+        std::fs::write(dir.path.join("oal.toml"), ambient).unwrap();
+        st.inc("cli_runs_with_options_only_next_to_an_unrelated_configuration_file");
         run_cli(&dir.path, main, "out.yaml", base)
     };
     st.inc("cli_runs");
